@@ -51,7 +51,7 @@ RULE = ("base well-formed sequences (<=6 notes, signatures) paired with: themsel
         "AbsoluteSequence and RelativeSequence and against objects that are no sequences; two signatures of a kind on one tick (D27's class) "
         "and the channel flag on multi-channel pairs (same events: equal; another attribute differs: unequal) are drawn; "
         "non-trivial = the pair differs in exactly one attribute")
-ASSUMPTIONS = ["models: SCoda.equalsAbs + SCoda.interleaved, tied by correspondence"]
+ASSUMPTIONS = ["models: SCoda.equalsAbs + SCoda.interleaved, tied by translation (AbsTie2.equalsAbs_eq / interleaved_eq, WrapTie.equals_eq / eqDunder_eq, SortTie) and by correspondence"]
 FLAGSETS = [(a, b, c, d) for a in (False, True) for b in (False, True) for c in (False, True) for d in (False, True)]
 
 
